@@ -8,6 +8,7 @@ package main
 
 import (
 	"fmt"
+	"go/types"
 	"strings"
 
 	"golang.org/x/tools/go/ssa"
@@ -175,8 +176,115 @@ func (w *World) flowClauses(id string, opts *RunOpts, ex *Extra) {
 	}
 }
 
+// fieldNameOf: the struct field a loaded value comes from ("" if it is not a field load).
+func fieldNameOf(v ssa.Value) string {
+	switch x := v.(type) {
+	case *ssa.UnOp:
+		if fa, ok := x.X.(*ssa.FieldAddr); ok {
+			if pt, ok := fa.X.Type().Underlying().(*types.Pointer); ok {
+				if st, ok := pt.Elem().Underlying().(*types.Struct); ok {
+					return st.Field(fa.Field).Name()
+				}
+			}
+		}
+	case *ssa.Field:
+		if st, ok := x.X.Type().Underlying().(*types.Struct); ok {
+			return st.Field(x.Field).Name()
+		}
+	}
+	return ""
+}
+
+// argFrom: `arg-from <callee> <k> call:<callee2>:<r>` / `field:<Name>` — where
+// the k-th argument of every call of <callee> in the function comes from.
+func (w *World) argFrom(id string, opts *RunOpts, ex *Extra) {
+	for _, c := range w.specs.Contracts {
+		if !hasTag(c.Props, id) {
+			continue
+		}
+		for _, cl := range c.Clauses {
+			if cl.Kind != "arg-from" {
+				continue
+			}
+			f := strings.Fields(cl.Raw)
+			if len(f) != 3 {
+				continue
+			}
+			callee, src := f[0], f[2]
+			var k int
+			fmt.Sscan(f[1], &k)
+			name := fmt.Sprintf("%s/arg-from:%s#%d<-%s", c.Func, callee, k, src)
+			fn := w.findFunc(c)
+			ex.Count++
+			if fn == nil {
+				ex.Lines = append(ex.Lines, "UNDECIDED: "+c.Func+" not found; "+name+" is not checked")
+				ex.Discharged++
+				continue
+			}
+			found, bad := 0, ""
+			for _, b := range fn.Blocks {
+				for _, ins := range b.Instrs {
+					call, ok := ins.(*ssa.Call)
+					if !ok || !strings.Contains(calleeName(call), callee) {
+						continue
+					}
+					args := call.Call.Args
+					off := 0
+					if call.Call.StaticCallee() != nil && call.Call.StaticCallee().Signature.Recv() != nil {
+						off = 1 // receiver is args[0] for static method calls
+					}
+					if k+off >= len(args) {
+						continue
+					}
+					found++
+					av := args[k+off]
+					okFlow := false
+					what := av.String()
+					switch {
+					case strings.HasPrefix(src, "call:"):
+						p := strings.Split(src, ":")
+						var r int
+						if len(p) > 2 {
+							fmt.Sscan(p[2], &r)
+						}
+						if ex2, isEx := av.(*ssa.Extract); isEx {
+							if c2, isCall := ex2.Tuple.(*ssa.Call); isCall && strings.Contains(calleeName(c2), p[1]) && ex2.Index == r {
+								okFlow = true
+							}
+						}
+						if c2, isCall := av.(*ssa.Call); isCall && strings.Contains(calleeName(c2), p[1]) {
+							okFlow = true
+						}
+					case strings.HasPrefix(src, "field:"):
+						fnm := fieldNameOf(av)
+						what = "field " + fnm
+						okFlow = fnm == strings.TrimPrefix(src, "field:")
+					}
+					if !okFlow && bad == "" {
+						p := w.prog.Fset.Position(call.Pos())
+						bad = fmt.Sprintf("argument %d of the call of %s at line %d is %s, the contract says it comes from %s", k, callee, p.Line, what, src)
+					}
+				}
+			}
+			switch {
+			case found == 0:
+				ex.Lines = append(ex.Lines, fmt.Sprintf("UNDECIDED: %s: no call of %s found in %s any more", name, callee, c.Func))
+				ex.Discharged++
+			case bad != "":
+				path := writeTextReplay(opts, id, name, bad+"\n(abstract-mode data-flow obligation over go/ssa)", "", "", "bin/govc check "+id)
+				ex.Lines = append(ex.Lines, fmt.Sprintf("VIOLATION property=%s replay=%s no-failing-input-found", id, path))
+				ex.Lines = append(ex.Lines, "  failed obligation: "+name+": "+bad)
+				ex.Violations++
+			default:
+				ex.Discharged++
+			}
+		}
+	}
+}
+
 func (w *World) callOrder(id string, opts *RunOpts, ex *Extra) {
 	w.flowClauses(id, opts, ex)
+	w.argFrom(id, opts, ex)
 	for _, c := range w.specs.Contracts {
 		if !hasTag(c.Props, id) {
 			continue
